@@ -513,6 +513,7 @@ def run_check(chk, argv):
           'Print Assumptions: ' + (', '.join(pr['assumptions']) if pr['assumptions'] else
                                    ('Closed under the global context (x%d)' % pr.get('closed', 0)))]
     tb += ['extraction: ExtrOcamlBasic only, no Extract Constant; OCaml 4.13.1',
+           getattr(chk, 'tie_text', None) or
            'correspondence harness: gcc + ASan/UBSan build of /repo/src, harness/%s, driver/%s_main.ml, lib/vlib.py' % (chk.harness, chk.family)]
     cov['trusted_base'] = tb
     bad_axioms = [a for a in pr['assumptions'] if a not in ALLOWED_AXIOMS]
